@@ -25,7 +25,7 @@ func parseHLSL(src string) *Program {
 	}
 	fe := &hlslFE{st: st}
 	st.fe = fe
-	toks := lex(HLSL, hlslPrelex(src))
+	toks := hlslDropStatementAttributes(hlslMergeTemplateCalls(lex(HLSL, hlslPrelex(src))))
 	p := &parser{d: HLSL, fe: fe, toks: toks, prog: prog}
 	p.pushScope()
 	decls := fe.parseTranslationUnit(p)
